@@ -259,6 +259,7 @@ type fixedReq struct {
 	obj     []string
 	listLen int
 	maxInv  int
+	syntax  uint64 // presentation of the selection sets in the document (engine/syntax.go); 0 = plain
 }
 
 func (h *harness) exhaustive() {
@@ -276,6 +277,17 @@ func (h *harness) exhaustive() {
 		{shape: "{a:[{x:i y:i}!] b:i}", leaf: ve, obj: v, listLen: 1, maxInv: 4},
 		{shape: "{a:{t# x:i} b:[{y:i}]}", leaf: v, obj: v, listLen: 2, maxInv: 5},
 		{shape: "{a:i b!:i c:{z:i}}", leaf: ve, obj: v, maxInv: 4},
+		// root fields contributed by fragments, repeated, skipped: AST selections ≠ response keys
+		{shape: "{a:i b:i}", leaf: ve, obj: v, maxInv: 4, syntax: 3},
+		{shape: "{a:i b:i c:i}", leaf: v, obj: v, maxInv: 4, syntax: 5},
+		{shape: "{a:i b:i}", leaf: ve, obj: v, maxInv: 4, syntax: 15},
+		{shape: "{a:{x:i y:i} b:{z:i}}", leaf: v, obj: v, maxInv: 5, syntax: 11},
+		{shape: "{a:{x:i} b:{y:i} c:i}", leaf: v, obj: v, maxInv: 5, syntax: 12},
+		// interface- and union-typed root fields (plain and in a list) over promise-backed sub-fields
+		{shape: "{a:{x:i}~i b:i}", leaf: ve, obj: []string{"val", "null", "err"}, maxInv: 4},
+		{shape: "{a:{x:i y:i}~u b:i}", leaf: ve, obj: v, maxInv: 4},
+		{shape: "{a:[{x:i}~i] b:{y:i}~u}", leaf: v, obj: v, listLen: 2, maxInv: 5},
+		{shape: "{a!:{x!:i}~u b:{y:i}~i}", leaf: ve, obj: v, maxInv: 4, syntax: 7},
 	}
 	modes := []string{"sync", "promise"}
 	if run.Thorough() {
@@ -298,7 +310,7 @@ func (h *harness) exhaustive() {
 			pending = nil
 		}
 		engine.EnumWorlds(shape, rq.leaf, rq.obj, max(rq.listLen, 1), false, func(w *engine.WVal) bool {
-			base := &engine.Case{Mutation: true, Shape: shape.Clone(), World: w}
+			base := &engine.Case{Mutation: true, Shape: shape.Clone(), World: w, Syntax: rq.syntax}
 			if len(base.Invocations()) > rq.maxInv {
 				return true
 			}
@@ -322,7 +334,7 @@ func (h *harness) exhaustive() {
 		})
 		flush()
 		total += n
-		run.CountN("exhaustive:"+rq.shape, n)
+		run.CountN(fmt.Sprintf("exhaustive:%s/syntax=%d", rq.shape, rq.syntax), n)
 	}
 	run.Note("bounded-exhaustive part: %d fixed mutations × all worlds over the listed outcomes × all async subsets × all fulfilment schedules = %d runs (complete=%v)", len(reqs), total, allComplete)
 	run.SetExhaustive(allComplete)
@@ -347,6 +359,9 @@ func (h *harness) random() {
 				}
 			}
 			c.Schedule = engine.GenSchedule(r, r.Range(0, 12))
+			if k > 0 {
+				c.Syntax = r.Uint64() | 1
+			}
 			pending = append(pending, c)
 			if i < 2 && k == 0 {
 				run.Sample(map[string]any{"document": c.Document(), "case": c})
@@ -371,14 +386,6 @@ func main() {
 		}
 		h.model = m
 		defer m.Close()
-	}
-	if settle, err := engine.DetectSettle(); err != nil {
-		fmt.Fprintln(os.Stderr, "cannot probe the serial executor:", err)
-		os.Exit(2)
-	} else if settle {
-		run.Note("serial executor under test: repaired (settleSerialPromises; F-11a fixed) — model asked for mutation-settle")
-	} else {
-		run.Note("serial executor under test: unrepaired (F-11a open) — model asked for mutation")
 	}
 	run.SetRule("mutations (≥ 2 root fields; nested objects and lists of objects; per-invocation sync|promise|pre flags; resolver outcomes value/null/error) × fulfilment schedules through graphql.Execute; distinct = distinct case; non-trivial = a promise strictly beneath a root field that is not the last one is fulfilled by the idle handler (the situation in which a later root field could start early)")
 
